@@ -3,11 +3,12 @@
 # in a throw-away worktree of /repo's HEAD; prints "<id> <check> caught|MISSED classes..." and removes the worktree.
 export GOFLAGS=-mod=mod GOPROXY=off GOSUMDB=off GOTOOLCHAIN=local
 V=$(cd "$(dirname "$0")/.." && pwd)
-ID=$1; P=${ID%%-*}; CHECK=${2:-$(python3 -c "import json;print(json.load(open('$V/seeded/$ID/meta.json'))['quick_check']['command'].split()[2])" 2>/dev/null || echo $P)}
+SEEDED=${SEEDED:-/verif/seeded}   # (the frozen copy used with VDIR does not carry seeded/)
+ID=$1; P=${ID%%-*}; CHECK=${2:-$(python3 -c "import json;print(json.load(open('$SEEDED/$ID/meta.json'))['quick_check']['command'].split()[2])" 2>/dev/null || echo $P)}
 W=/tmp/reeval-$ID
 git -C /repo worktree remove --force $W >/dev/null 2>&1
 git -C /repo worktree add --detach $W HEAD >/dev/null 2>&1 || { echo "$ID cannot create worktree"; exit 2; }
-if ! git -C $W apply $V/seeded/$ID/patch.diff 2>/dev/null; then echo "$ID patch does not apply to HEAD any more"; git -C /repo worktree remove --force $W; exit 3; fi
+if ! git -C $W apply $SEEDED/$ID/patch.diff 2>/dev/null; then echo "$ID patch does not apply to HEAD any more"; git -C /repo worktree remove --force $W; exit 3; fi
 cd ${VDIR:-$V}
 VCHECK_REPO=$W ./bin/vcheck run $CHECK ${EVAL_ARGS} > /tmp/reeval-$ID.log 2>&1; rc=$?
 classes=$(grep '^violation class' /tmp/reeval-$ID.log | sed 's/violation class \([^ ]*\) (\([0-9]*\) runs.*/\1:\2/' | tr '\n' ' ')
